@@ -40,7 +40,7 @@ def schedule_value(spec, t):
 def build_therm(sc):
     sysn = sc["system"]
     if sysn == "toy_bin":
-        phases = {p["name"]: {"xb": p["xb"], "dH": p["dH"], "dS": p["dS"]} for p in sc["phases"]}
+        phases = {p["name"]: {"xb": p["xb"], "dH": p["dH"], "dS": p["dS"], "kbeta": p.get("kbeta", 0.0)} for p in sc["phases"]}
         return toy.ToyBinary(phases, D0=sc["D0"], Q=sc["Q"])
     if sysn == "toy_multi":
         phases = {p["name"]: {"xb": p["xb"], "dH": p["dH"], "dS": p["dS"]} for p in sc["phases"]}
